@@ -9,7 +9,23 @@ from sa.model import Function, const_str, dotted, norm, own_nodes
 Rule = Tuple[str, str]
 
 
+def _negate(t: ast.AST) -> ast.AST:
+    if isinstance(t, ast.UnaryOp) and isinstance(t.op, ast.Not):
+        return t.operand
+    if isinstance(t, ast.Compare) and len(t.ops) == 1:
+        inv = {ast.NotEq: ast.Eq, ast.Eq: ast.NotEq, ast.NotIn: ast.In, ast.In: ast.NotIn}.get(type(t.ops[0]))
+        if inv is not None:
+            return ast.Compare(left=t.left, ops=[inv()], comparators=t.comparators)
+    return ast.UnaryOp(op=ast.Not(), operand=t)
+
+
 def _status_eq(test: ast.AST) -> Optional[Tuple[str, ast.AST]]:
+    from sa.match import canon_compare
+
+    test = canon_compare(test)
+    if isinstance(test, ast.Compare) and len(test.ops) == 1 and isinstance(test.ops[0], ast.Eq) and not (isinstance(test.left, ast.Attribute) and test.left.attr == "status_code") \
+            and isinstance(test.comparators[0], ast.Attribute) and test.comparators[0].attr == "status_code":
+        test = ast.Compare(left=test.comparators[0], ops=[ast.Eq()], comparators=[test.left])  # code == r.status_code
     """`x.status_code == <v>` -> ('eq', v-node); `x.status_code.startswith(<c>)` -> ('startswith', c-node);
     `x.status_code in <seq>` -> ('in', seq-node)."""
     if isinstance(test, ast.Compare) and len(test.ops) == 1 and isinstance(test.left, ast.Attribute) and test.left.attr == "status_code":
@@ -27,6 +43,11 @@ def _first_match_of(st: ast.stmt) -> Optional[Tuple[str, ast.AST]]:
     """A statement that returns the first response satisfying a status test, in either idiom:
          for r in <responses>: if <test(r)>: return r
          x = next((r for r in <responses> if <test(r)>), None)   [followed by `if x: return x`]"""
+    if isinstance(st, ast.For) and len(st.body) == 2 and isinstance(st.body[0], ast.If) and not st.orelse and not st.body[0].orelse \
+            and len(st.body[0].body) == 1 and isinstance(st.body[0].body[0], ast.Continue) and isinstance(st.body[1], ast.Return) \
+            and isinstance(st.target, ast.Name) and isinstance(st.body[1].value, ast.Name) and st.body[1].value.id == st.target.id and "responses" in norm(st.iter):
+        # guard-clause idiom: `if not <test>: continue` / `return r`
+        return _status_eq(_negate(st.body[0].test))
     if isinstance(st, ast.For) and len(st.body) == 1 and isinstance(st.body[0], ast.If) and not st.orelse:
         iff = st.body[0]
         if len(iff.body) == 1 and isinstance(iff.body[0], ast.Return) and not iff.orelse and isinstance(st.target, ast.Name) \
@@ -42,6 +63,9 @@ def _first_match_of(st: ast.stmt) -> Optional[Tuple[str, ast.AST]]:
 def priority_signature(fn: Function) -> List[Rule]:
     """Normal form of a primary-response selector: ordered list of rules
          ('eq', code) | ('startswith', prefix) | ('in', codes) | ('first', '') | ('unknown', text)."""
+    from sa.match import Locals
+
+    L = Locals(fn.node)
     sig: List[Rule] = []
     body = [s for s in fn.node.body if not (isinstance(s, ast.Expr) and isinstance(s.value, ast.Constant))]  # type: ignore[attr-defined]
     i = 0
@@ -49,7 +73,8 @@ def priority_signature(fn: Function) -> List[Rule]:
         st = body[i]
         nxt = body[i + 1] if i + 1 < len(body) else None
         # guard `if not op.responses: return None` / `resp = None`
-        if isinstance(st, ast.If) and isinstance(st.test, ast.UnaryOp) and isinstance(st.test.op, ast.Not) and "responses" in norm(st.test) \
+        if isinstance(st, ast.If) and "responses" in norm(st.test) and not any(isinstance(x, ast.Attribute) and x.attr == "status_code" for x in ast.walk(st.test)) \
+                and all(isinstance(x.value, int) or x.value is None for x in ast.walk(st.test) if isinstance(x, ast.Constant)) and not st.orelse \
                 and len(st.body) == 1 and isinstance(st.body[0], ast.Return) and (st.body[0].value is None or norm(st.body[0].value) == "None"):
             i += 1
             continue
@@ -57,8 +82,13 @@ def priority_signature(fn: Function) -> List[Rule]:
             i += 1
             continue
         # for code in [..]: <first-match with == code>
-        if isinstance(st, ast.For) and isinstance(st.iter, (ast.List, ast.Tuple)) and isinstance(st.target, ast.Name):
-            codes = [const_str(e) for e in st.iter.elts]
+        it = L.inline(st.iter) if isinstance(st, ast.For) else None
+        if isinstance(st, ast.Assign) and isinstance(st.value, (ast.List, ast.Tuple)) and all(const_str(e) is not None for e in st.value.elts) \
+                and isinstance(st.targets[0], ast.Name) and L.single(st.targets[0].id) is not None:
+            i += 1  # the priority list bound to a local; it is inlined where it is iterated
+            continue
+        if isinstance(st, ast.For) and isinstance(it, (ast.List, ast.Tuple)) and isinstance(st.target, ast.Name):
+            codes = [const_str(e) for e in it.elts]
             inner = [s for s in st.body]
             fm = _first_match_of(inner[0]) if inner else None
             ok_tail = len(inner) == 1 or (len(inner) == 2 and isinstance(inner[1], ast.If) and len(inner[1].body) == 1 and isinstance(inner[1].body[0], ast.Return))
@@ -96,6 +126,17 @@ def priority_signature(fn: Function) -> List[Rule]:
             continue
         if isinstance(st, ast.Return) and (st.value is None or norm(st.value) == "None"):
             i += 1
+            continue
+        # a choice by *ordering* of status codes (min / max / sorted over responses) is understood - and is not a priority list
+        ordering = [c for c in ast.walk(st) if isinstance(c, ast.Call) and (dotted(c.func) in ("min", "max", "sorted") or (
+            isinstance(c.func, ast.Attribute) and c.func.attr == "sort")) and any(isinstance(x, ast.Attribute) and x.attr == "status_code" for x in ast.walk(c))]
+        if ordering:
+            sig.append(("order", dotted(ordering[0].func) or "sort"))
+            i += 1
+            continue
+        if isinstance(st, ast.Assign) and isinstance(st.value, (ast.ListComp, ast.GeneratorExp)) and "responses" in norm(st.value.generators[0].iter) \
+                and isinstance(nxt, ast.If) and any(isinstance(c, ast.Call) and dotted(c.func) in ("min", "max", "sorted") for c in ast.walk(nxt)):
+            i += 1  # the candidate list of an ordering choice that follows
             continue
         sig.append(("unknown", txt[:80]))
         i += 1
